@@ -14,6 +14,11 @@ use proptest::prelude::*;
 use serde::{Deserialize, Serialize};
 use serde_json::{json, Value};
 use std::path::Path;
+use std::sync::Mutex;
+
+/// coverage-guided stage (thorough tier): cases flagged by the libFuzzer campaign and its statistics
+static FUZZ_CASES: Mutex<Vec<Case>> = Mutex::new(Vec::new());
+static FUZZ_STATS: Mutex<Option<Value>> = Mutex::new(None);
 
 pub struct C12;
 
@@ -202,7 +207,10 @@ fn panic_sig(p: &str) -> String {
             skeleton.push(c);
         }
     }
-    format!("{file}/{}", skeleton.split_whitespace().take(6).collect::<Vec<_>>().join("-"))
+    // the same panic site, different root cause: a C identifier with characters Rust has no
+    // identifier syntax for (clang 14 follows C11 Annex D, Rust follows UAX #31)
+    let class = if msg.contains("is not a valid Ident") && !msg.is_ascii() { "/non-ascii-identifier" } else { "" };
+    format!("{file}/{}{class}", skeleton.split_whitespace().take(6).collect::<Vec<_>>().join("-"))
 }
 
 /// Options the property excludes: they are documented to need a cooperating callback.
@@ -398,8 +406,49 @@ impl Property for C12 {
     fn generated(&self, tier: Tier) -> usize {
         tier.pick(12000, 200000)
     }
+    /// Thorough tier: a libFuzzer campaign (`/verif/fuzz_c12.sh`: header text + option selector,
+    /// coverage of bindgen's own code) runs first; everything it flags becomes a `Text` case of
+    /// this run and is judged by `evaluate` like any other case. BGV_FUZZ_SECS=0 skips it.
+    fn prepare(&self, tier: Tier) -> Result<(), String> {
+        if tier != Tier::Thorough {
+            return Ok(());
+        }
+        let secs: u64 = std::env::var("BGV_FUZZ_SECS").ok().and_then(|s| s.parse().ok()).unwrap_or(900);
+        if secs == 0 {
+            return Ok(());
+        }
+        let out = Path::new(crate::engine::VERIF).join("work").join("fuzz-C12");
+        let mut cmd = std::process::Command::new("/verif/fuzz_c12.sh");
+        cmd.arg(secs.to_string()).arg("16").arg(&out);
+        let o = tools::run(&mut cmd, &Path::new(crate::engine::VERIF).join("work"), secs + 1200).map_err(|e| format!("fuzz stage: {e}"))?;
+        if !o.ok() {
+            return Err(format!("fuzz stage failed: {}", o.stdout.chars().rev().take(300).collect::<String>().chars().rev().collect::<String>()));
+        }
+        let stats: Value = std::fs::read_to_string(out.join("stats.json")).ok().and_then(|t| serde_json::from_str(&t).ok()).unwrap_or(Value::Null);
+        *FUZZ_STATS.lock().unwrap() = Some(stats);
+        let mut cases = vec![];
+        if let Ok(rd) = std::fs::read_dir(out.join("cases")) {
+            let mut files: Vec<_> = rd.filter_map(|e| e.ok()).map(|e| e.path()).collect();
+            files.sort();
+            for f in files {
+                if let Ok(c) = crate::engine::load_replay::<Case>(&f) {
+                    cases.push(c);
+                }
+            }
+        }
+        *FUZZ_CASES.lock().unwrap() = cases;
+        Ok(())
+    }
+    fn extra_coverage(&self) -> std::collections::BTreeMap<String, Value> {
+        let mut m = std::collections::BTreeMap::new();
+        if let Some(s) = FUZZ_STATS.lock().unwrap().clone() {
+            m.insert("coverage_guided_stage".to_string(), s);
+        }
+        m
+    }
     fn fixed_cases(&self, _tier: Tier) -> Vec<Case> {
         let mut v: Vec<Case> = corpus::load_all().into_iter().map(|h| Case::Mut { header: h.name, edits: vec![], splice_from: None }).collect();
+        v.extend(FUZZ_CASES.lock().unwrap().iter().cloned());
         for f in NEST_FAMILIES {
             for d in [10u32, 50, 100, 150, 200] {
                 v.push(Case::Nest { family: f.to_string(), depth: d, cpp: true });
@@ -619,6 +668,41 @@ impl Property for C12 {
                     Err(e) => return out.inconclusive(e),
                 };
                 self.judge(&v, Some(accepted), &format!("text case {name}"), &mut out);
+                // root-cause attribution by differential: a panic that disappears when a class of
+                // input is neutralised belongs to that class (one signature per root cause)
+                if out.failures.iter().any(|f| f.sig.starts_with("panic/")) {
+                    let rerun = |t: String, out: &mut Outcome| -> Option<bool> {
+                        let input = BgInput { files: vec![(name.clone(), t)], headers: vec![name.clone()], flags: flags.clone(), clang_args: clang_args.clone(), callbacks: vec![] };
+                        crate::bg::write_files(&env.dir, &input.files);
+                        out.evaluations += 1;
+                        self.run_gen(&input, &[], env).ok().map(|v| v["k"] == json!("panic"))
+                    };
+                    let mut class: Option<String> = None;
+                    if !text.is_ascii() {
+                        // characters clang accepts in identifiers (C11 Annex D) that Rust does not
+                        if rerun(text.chars().map(|c| if c.is_ascii() { c } else { 'x' }).collect(), &mut out) == Some(false) {
+                            class = Some("panic/non-xid-identifier-character".into());
+                        }
+                    }
+                    if class.is_none() && text.contains("rustbindgen") {
+                        // annotations in comments: their values are pasted into the bindings
+                        if rerun(text.replace("rustbindgen", "rustbindgem"), &mut out) == Some(false) {
+                            let site = out.failures.iter().find(|f| f.sig.starts_with("panic/")).map(|f| f.sig.trim_start_matches("panic/").to_string()).unwrap_or_default();
+                            let site = if site.contains("postprocessing/mod.rs") {
+                                "bindgen/codegen/postprocessing/mod.rs/unparseable".to_string()
+                            } else if site.contains("Ident") { "bindgen/ir/context.rs/invalid-identifier".to_string() } else { site };
+                            class = Some(format!("panic/malformed-annotation/{site}"));
+                        }
+                    }
+                    if let Some(c) = class {
+                        for f in out.failures.iter_mut() {
+                            if f.sig.starts_with("panic/") {
+                                f.sig = c.clone();
+                            }
+                        }
+                    }
+                    crate::bg::write_files(&env.dir, &[(name.clone(), text.clone())]);
+                }
                 out.nontrivial(format!("{:x}", fnv(text)));
                 out.sample = Some(json!({"text": text.chars().take(300).collect::<String>(), "result": v["k"]}));
             }
